@@ -209,7 +209,7 @@ def positions(rng, n, lo, hi, dup=0.1):
 
 
 def simple_file(rng, nrec=20, ncontig=2, small_coords=False, long_refs=False, samples=0, unused_contigs=True,
-                span=None):
+                span=None, align=None):
     """fixed fields only (plus optional trivially-genotyped samples): for index / partition / region-index work"""
     names = [f"c{i}" for i in range(ncontig)]
     contigs = [[nm, rng.choice([None, 10**7, 2**31 - 1]) if not small_coords else 200] for nm in names]
@@ -222,7 +222,12 @@ def simple_file(rng, nrec=20, ncontig=2, small_coords=False, long_refs=False, sa
     for ci in range(ncontig):
         if counts[ci] == 0:
             continue
-        for p in positions(rng, counts[ci], 1, hi):
+        ps = positions(rng, counts[ci], 1, hi)
+        if align:
+            # records exactly on index window starts (w*k + 1) and right next to them: region boundaries fall there
+            ps = sorted((q // align) * align + rng.choice([1, 1, 1, 0, 2]) if rng.random() < 0.6 else q for q in ps)
+            ps = [max(1, q) for q in ps]
+        for p in ps:
             reflen = 1
             if long_refs and rng.random() < 0.3:
                 reflen = rng.choice([2, 5, 20, 90] if small_coords else [2, 30, 1000, 20_000])
@@ -295,7 +300,7 @@ def _value(rng, typ, k, allow_missing_entries=True, small=False):
 
 
 def rich_file(rng, nrec=None, nsamples=None, ncontig=None, fields="all", gt=True, ploidies=(2,), max_alt=3,
-              small_ints=False, records_lack_gt=False, shuffle_contig_blocks=False):
+              small_ints=False, records_lack_gt=False, shuffle_contig_blocks=False, must_formats=()):
     nrec = nrec if nrec is not None else rng.choice([1, 3, 8, 20, 60])
     nsamples = nsamples if nsamples is not None else rng.choice([0, 1, 2, 3, 6])
     ncontig = ncontig or rng.choice([1, 2, 3, 5])
@@ -316,6 +321,11 @@ def rich_file(rng, nrec=None, nsamples=None, ncontig=None, fields="all", gt=True
             for typ in types:
                 for num in rng.sample(NUMBERS, rng.choice([0, 1, 2])):
                     formats.append({"id": f"F{typ[0]}{num.replace('.', 'v')}", "number": num, "type": typ})
+    if nsamples:
+        for typ, num in must_formats:      # fields the caller insists on (e.g. ragged integer vectors)
+            fid = f"F{typ[0]}{num.replace('.', 'v')}"
+            if all(f["id"] != fid for f in formats):
+                formats.append({"id": fid, "number": num, "type": typ})
     rng.shuffle(infos)
     rng.shuffle(formats)
     if nsamples and gt:
